@@ -29,7 +29,7 @@ func init() {
 				"into the serve functions.",
 			NotCovered: "equality of payloads across transports, framing arithmetic, message contents; the DNSCrypt goroutines " +
 				"belong to the dnscrypt library.",
-			Rules: map[string]string{"C01-R24": "the response code the pipeline produced survives SetReply (Android metric path, cached results)", "C01-R23": "a handler that has written a response returns nil or that write's own error only (the server turns every other handler error into a second, SERVFAIL response)", "C01-RC": "class rules (error chains, shadowed results, character classes, crossed arguments, pool constructors, array pools, loop completeness, loop-carried buffers, replacing setters, complete clones, Grow arithmetic, pooled-buffer escape, sorted searches, fresh decode targets, per-iteration objects, whole-message copies, codec guards) over the packages this property rests on", "C01-R22": "slices.Grow amounts are computed from len(s), never from cap(s) (getTCPBuffer and every other growth site)", "C01-R20": "every Unpack is bounded by the bytes read for this message (shared with C06-R1); pooled RR parts are fully re-initialised by the cloner (shared with C07-R1)", "C01-R18": "the bytes of a received datagram stay the session's own until its response was written (buffer-lifetime rules shared with C06-R2)", "C01-R19": "Android metric-domain path: the pipeline serves a clone under the shared name; the response is made a reply to the client's own message (SetReply, replaceResp) before it is written, with or without answers",
+			Rules: map[string]string{"C01-R25": "bindtodevice writer: the request's deadline is set on the socket before the write", "C01-R24": "the response code the pipeline produced survives SetReply (Android metric path, cached results)", "C01-R23": "a handler that has written a response returns nil or that write's own error only (the server turns every other handler error into a second, SERVFAIL response)", "C01-RC": "class rules (error chains, shadowed results, character classes, crossed arguments, pool constructors, array pools, loop completeness, loop-carried buffers, replacing setters, complete clones, Grow arithmetic, pooled-buffer escape, sorted searches, fresh decode targets, per-iteration objects, whole-message copies, codec guards) over the packages this property rests on", "C01-R22": "slices.Grow amounts are computed from len(s), never from cap(s) (getTCPBuffer and every other growth site)", "C01-R20": "every Unpack is bounded by the bytes read for this message (shared with C06-R1); pooled RR parts are fully re-initialised by the cloner (shared with C07-R1)", "C01-R18": "the bytes of a received datagram stay the session's own until its response was written (buffer-lifetime rules shared with C06-R2)", "C01-R19": "Android metric-domain path: the pipeline serves a clone under the shared name; the response is made a reply to the client's own message (SetReply, replaceResp) before it is written, with or without answers",
 				"C01-R1": "acceptMsg decision table", "C01-R2": "serveDNS (undecodable input dropped) and serveDNSMsgInternal gate/effect tables",
 				"C01-R3": "at most one write event per ResponseWriter parameter on every path",
 				"C01-R4": "DoQ and DoH glue: one answer per request, from this request's recorder (SERVFAIL / HTTP 500 when nothing was written, HTTP 400 for undecodable requests)", "C01-R5": "defer handlePanicAndRecover dominates serving",
@@ -259,6 +259,8 @@ func runC01(c *an.Ctx) {
 	c01Writers(c)
 	c01AndroidMetric(c)
 	c01InitialMW(c)
+	c.Floor("C01-R25", 1)
+	c01WriteDeadline(c)
 	if n := sharedSetReplyKeepsRcode(c, "C01-R24"); n < 3 {
 		c.Und("C01-R24", "SetReply on existing responses", token.NoPos, "only %d SetReply calls found", n)
 	}
@@ -1538,4 +1540,35 @@ func c01ErrorAfterWrite(c *an.Ctx) {
 	if n < 5 {
 		c.Und("C01-R23", "handlers that write responses", token.NoPos, "only %d WriteMsg calls found in the request path", n)
 	}
+}
+
+
+// c01WriteDeadline: the interface listener's writer sets the write request's
+// own deadline on the socket before it writes it.  A request whose sender has
+// already given up (and whose buffer may have been recycled) has an expired
+// deadline, so the write fails instead of sending another response's bytes.
+func c01WriteDeadline(c *an.Ctx) {
+	const k = "bindtodevice.(*interfaceListener).writeUDP"
+	fn := c.Fn(k)
+	if fn == nil {
+		if c.Config.GOOS == "" || c.Config.GOOS == "linux" {
+			c.Und("C01-R25", k+" sets the request's deadline before writing", token.NoPos, "anchor not found")
+		}
+		return
+	}
+	c.Analysed(k)
+	var set, write ssa.CallInstruction
+	for _, call := range an.Calls(fn) {
+		n := an.CalleeName(call)
+		switch {
+		case strings.HasSuffix(n, ").SetWriteDeadline") && set == nil:
+			if ap, _ := an.AccessPath(call.Common().Args[len(call.Common().Args)-1]); strings.HasSuffix(ap, ".deadline") {
+				set = call
+			}
+		case strings.HasSuffix(n, ").writeToUDPConn"):
+			write = call
+		}
+	}
+	c.Check(set != nil && write != nil && an.Dominates(set, write), "C01-R25", k+" sets the request's deadline before writing", fn.Pos(),
+		"SetWriteDeadline(req.deadline) dominates the write", "the write is not preceded by SetWriteDeadline(req.deadline): an abandoned request whose buffer was recycled is still sent, with another response's bytes")
 }
